@@ -63,7 +63,7 @@ theorem step_mono (H : Heap) (op : Op) :
     split
     · exact ⟨Nat.le_refl _, [d], rfl⟩
     · exact ⟨Nat.le_refl _, [], by simp⟩
-  | newClass bases mro pmap own =>
+  | newClass bases mro pmap own dlg =>
     simp only [step]
     split <;> exact ⟨Nat.le_refl _, [], by simp⟩
   | newCaller t cls =>
@@ -355,7 +355,7 @@ theorem step_userList {H : Heap} (hi : Inv H) {l : Nat} (hl : l ∈ H.userLists)
         exact ⟨by simp only []; rw [List.getElem?_set_ne this], hl⟩
       · exact same
   | newParams d => simp only [step]; split <;> exact same
-  | newClass bases mro pmap own => simp only [step]; split <;> exact same
+  | newClass bases mro pmap own dlg => simp only [step]; split <;> exact same
   | newCaller t cls =>
     rcases step_newCaller_cases H t cls with ⟨e, h⟩ | ⟨cl, _, _, h⟩ | ⟨H', n, t', cl, hmk, _, _, h⟩
     · rw [h]; exact same
@@ -465,7 +465,7 @@ theorem step_userDicts (H : Heap) (op : Op) :
       intro kv hkv
       exact List.all_eq_true.mp hall kv hkv
     · exact Or.inl rfl
-  | newClass bases mro pmap own => simp only [step]; split <;> exact Or.inl rfl
+  | newClass bases mro pmap own dlg => simp only [step]; split <;> exact Or.inl rfl
   | newCaller t cls =>
     rcases step_newCaller_cases H t cls with ⟨e, h⟩ | ⟨cl, _, _, h⟩ | ⟨H', n, t', cl, hmk, _, _, h⟩
     · rw [h]; exact Or.inl rfl
